@@ -1,0 +1,11 @@
+//go:build verif
+
+// Contracts for package identityprovider, checked by /verif (govc). Comment-only.
+package identityprovider
+
+// C20, identity half: the public key an identity publishes is the uncompressed 65-byte serialisation of the very point
+// the keystore's key denotes (pointOf / keyPoint: assumed vocabulary of the btcec (de)serialisers).
+//@ func compressedToUncompressedS256Key
+//@   ensures [published-key-denotes-the-stored-key] err == nil ==> pointOf(bytes(result0)) == pointOf(bytes(pubKeyBytes))
+//@   ensures [published-key-is-the-65-byte-uncompressed-form] err == nil ==> len(result0) == 65 && !isCompressedKey(bytes(result0))
+//@   ensures [unparsable-key-is-an-error] err != nil ==> result0 == nil
